@@ -1301,7 +1301,7 @@ def boring_premises(ss, tt, nu, bt, p_th):
 def boring_premise_cases(ctx):
     """end_lo / end_hi over the whole range of p_th and of nu the pipeline can produce on data of the sizes
     the harness generates and far beyond (nu up to 1e6), and the measured limit: for nu above a few million
-    the premise fails (finding C11-boring-huge-nu, boring_huge_nu_case) - recorded as a number, not assumed."""
+    the premise fails (finding F22 (C11-boring-huge-nu), boring_huge_nu_case) - recorded as a number, not assumed."""
     from cell_type_mapper.utils.stats_utils import boring_t_from_p_value
     import scipy.stats as ss
     rng = ctx.rng
@@ -1334,7 +1334,7 @@ def boring_premise_cases(ctx):
 
 
 def boring_huge_nu_case(ctx):
-    """Finding C11-boring-huge-nu: two clusters of 1e7 cells (statistics only), one gene with |t| 2e-7 below
+    """Finding F22 (C11-boring-huge-nu): two clusters of 1e7 cells (statistics only), one gene with |t| 2e-7 below
     boring_t: its exact Welch p-value (Holm multiplier 1) is below p_th, so score_differential_genes with exact
     p-values records it, but the worker's call (boring_t = boring_t_from_p_value(p_th)) gives it p = 1."""
     from cell_type_mapper.utils.stats_utils import boring_t_from_p_value, welch_t_test
